@@ -27,7 +27,10 @@ class MIADistinguisherMixin(_PartitionnedDistinguisherBaseMixin):
         for a, b in zip(bin_edges, bin_edges[1:]):
             if not a < b:
                 raise ValueError(f'bin_edges must be sorted, but {a} >= {b}.')
-        if _np.any(_np.abs(_np.diff(_np.diff(bin_edges))) > 1e-9):
+        widths = _np.diff(bin_edges)
+        # Equally spaced up to 1e-9 of a bin width, or up to the rounding of the edge values themselves (linspace on large values).
+        tolerance = max(1e-9 * widths[0], 8 * _np.spacing(_np.max(_np.abs(bin_edges))))
+        if _np.any(_np.abs(_np.diff(widths)) > tolerance):
             raise ValueError('bin_edges must be uniform (i.e with bins equally spaced.')
         self._bin_edges = bin_edges
         self.bins_number = len(bin_edges) - 1
